@@ -34,25 +34,26 @@ type Found struct {
 
 // WorkerResult is what one worker process reports to the driver.
 type WorkerResult struct {
-	Prop          string         `json:"property"`
-	Seed          uint64         `json:"seed"`
-	Worker        int            `json:"worker"`
-	Evaluations   int            `json:"evaluations"`
-	Nontrivial    int            `json:"nontrivial"`
-	Keys          []uint64       `json:"keys"`
-	KeysSaturated bool           `json:"keys_saturated"`
-	States        []uint64       `json:"states"`
-	Scheds        []uint64       `json:"scheds"`
-	Faults        map[string]int `json:"faults"`
-	Probes        map[string]int `json:"probes"`
-	SimTimeS      float64        `json:"sim_time_s"`
-	Steps         int64          `json:"steps"`
-	Inconclusive  int            `json:"inconclusive"`
-	Samples       []any          `json:"samples"`
-	OtherProps    map[string]int `json:"other_property_violations"`
-	Known         map[string]int `json:"known_findings"`
-	Found         *Found         `json:"found,omitempty"`
-	WallS         float64        `json:"wall_s"`
+	Prop          string            `json:"property"`
+	Seed          uint64            `json:"seed"`
+	Worker        int               `json:"worker"`
+	Evaluations   int               `json:"evaluations"`
+	Nontrivial    int               `json:"nontrivial"`
+	Keys          []uint64          `json:"keys"`
+	KeysSaturated bool              `json:"keys_saturated"`
+	States        []uint64          `json:"states"`
+	Scheds        []uint64          `json:"scheds"`
+	Faults        map[string]int    `json:"faults"`
+	Probes        map[string]int    `json:"probes"`
+	SimTimeS      float64           `json:"sim_time_s"`
+	Steps         int64             `json:"steps"`
+	Inconclusive  int               `json:"inconclusive"`
+	Samples       []any             `json:"samples"`
+	OtherProps    map[string]int    `json:"other_property_violations"`
+	OtherSamples  map[string]string `json:"other_property_samples"`
+	Known         map[string]int    `json:"known_findings"`
+	Found         *Found            `json:"found,omitempty"`
+	WallS         float64           `json:"wall_s"`
 }
 
 // KnownFinding is one entry of /verif/known_findings.json.
@@ -150,6 +151,9 @@ func pickViolation(o *Outcome, prop string, known []KnownFinding, res *WorkerRes
 		if v.Prop != prop {
 			if res != nil {
 				res.OtherProps[v.Prop]++
+				if _, ok := res.OtherSamples[v.Prop]; !ok {
+					res.OtherSamples[v.Prop] = v.Clause + ": " + v.Detail
+				}
 			}
 			continue
 		}
@@ -220,7 +224,7 @@ func WorkerMain(t *testing.T) {
 	shrinkS := envInt("VERIF_SHRINK_SECONDS", 30)
 	out := os.Getenv("VERIF_OUT")
 
-	res := &WorkerResult{Prop: prop, Seed: seed, Worker: worker, Faults: map[string]int{}, Probes: map[string]int{}, OtherProps: map[string]int{}, Known: map[string]int{}}
+	res := &WorkerResult{Prop: prop, Seed: seed, Worker: worker, Faults: map[string]int{}, Probes: map[string]int{}, OtherProps: map[string]int{}, OtherSamples: map[string]string{}, Known: map[string]int{}}
 	keys := map[uint64]struct{}{}
 	states := map[uint64]struct{}{}
 	scheds := map[uint64]struct{}{}
